@@ -209,6 +209,10 @@ def run_case(case):
                 arg = np.empty(nv["shape"], dtype=object)
             else:
                 arg = assign.plain_arg(anode, nv)
+            if kind == "item_too_large" and mu["far"] % 2 == 1 and isinstance(arg, list):
+                # the same value as an object of the very same array class (same shape, larger total size), in a buffer of its own
+                arg = anode.cls(arg)
+                labels.add("item_too_large_as_same_class_xobject")
             parent = mat.obj_get(obj, node, path[:-1])
             applied = True
             return lambda: mat.obj_set(parent[0], parent[1], path[-1:], arg)
